@@ -357,6 +357,18 @@ func (g *Gate) ReleaseWho(id int64) bool {
 	return false
 }
 
+// Parked reports whether the caller from goroutine id is parked here.
+func (g *Gate) Parked(id int64) bool {
+	g.mu.Lock()
+	defer g.mu.Unlock()
+	for _, w := range g.who {
+		if w == id {
+			return true
+		}
+	}
+	return false
+}
+
 // Waiting reports how many callers are parked.
 func (g *Gate) Waiting() int { g.mu.Lock(); defer g.mu.Unlock(); return len(g.waiting) }
 
